@@ -65,7 +65,7 @@ func profileFor(prop string) *Profile {
 		p.Faults["export"] = true
 		p.Faults["expcont"] = true
 		p.ExportProbe = 0.12
-		p.PrefixAddrs = 0.3
+		p.PrefixAddrs = 0.1
 	case "C20":
 		p.Faults["crash"] = true
 		p.Replicas = 2
@@ -172,7 +172,11 @@ func NewGen(seed int64, prop string, run int, thorough bool) *Gen {
 		g.svcNames = append(g.svcNames, svcNamePool[perm[i]])
 	}
 	// non-signing provider addresses of various lengths
-	if g.chance(0.6) {
+	rawP := 0.6
+	if prop == "C19" {
+		rawP = 0.12 // addresses that are not 20 bytes long end an export run at once (known finding): keep them rare
+	}
+	if g.chance(rawP) {
 		g.rawProvs = append(g.rawProvs, rawRef(pickBytes(g, 1+g.pick(40))))
 	}
 	if g.chance(prof.PrefixAddrs) {
